@@ -147,6 +147,8 @@ class PySym:
             if isinstance(base, Vec):
                 if isinstance(idx, ast.Constant) and isinstance(idx.value, int):
                     return base[idx.value]
+                if isinstance(idx, ast.Tuple) and len(idx.elts) == 2 and isinstance(idx.elts[0], ast.Slice) and isinstance(idx.elts[1], ast.Constant):
+                    return base[idx.elts[1].value]       # column k of a per-frame table carried as one symbolic row
                 if isinstance(idx, ast.Tuple) and all(isinstance(e, ast.Constant) for e in idx.elts):
                     v = base
                     for e in idx.elts:
@@ -197,6 +199,16 @@ class PySym:
 
     def call(self, n):
         cn = call_name(n) or ""
+        if isinstance(n.func, ast.Attribute) and n.func.attr in ("sum", "astype", "copy") and not cn.startswith(("np.", "math.")):
+            recv = self.ex(n.func.value)
+            if n.func.attr == "sum":
+                if isinstance(recv, Vec):
+                    tot = Rat(Poly.const(0))
+                    for x in recv:
+                        tot = tot + x
+                    return tot
+                return recv
+            return recv
         args = [None if (isinstance(a, ast.Constant) and isinstance(a.value, str)) else self.ex(a) for a in n.args]
         last = cn.split(".")[-1]
         if cn in ("np.cos", "np.sin", "np.sqrt", "np.arccos", "np.arcsin", "np.tan", "math.cos", "math.sin", "math.sqrt", "math.acos", "np.arctan2"):
@@ -237,6 +249,16 @@ class PySym:
             return Vec([a[1] * b[2] - a[2] * b[1], a[2] * b[0] - a[0] * b[2], a[0] * b[1] - a[1] * b[0]])
         if cn in ("np.linalg.norm",):
             return self.fn("sqrt", self.dot(args[0], args[0]))
+        if cn in ("np.square",):
+            return self.binop(ast.Mult(), args[0], args[0])
+        if cn in ("np.power",):
+            return self.binop(ast.Pow(), args[0], args[1], n)
+        if cn in ("np.log", "np.exp", "np.cbrt"):
+            if isinstance(args[0], Vec):
+                return Vec(self.fn(last, x) for x in args[0])
+            return self.fn(last, args[0])
+        if cn == "len" and isinstance(n.args[0], ast.Name):
+            return Rat(Poly.var("len(%s)" % n.args[0].id))
         if cn in ("np.abs", "abs"):
             return self.fn("abs", args[0])
         if cn in ("float", "np.float64", "np.float32", "np.double"):
